@@ -1,5 +1,6 @@
 import DriverLib.Basic
-import QV.Model.EarlyStop
+import DriverLib.C12
+import QV.Model.EarlyStopFit
 open Lean Drv QV QV.Cb
 
 namespace Drv.C18
@@ -155,6 +156,69 @@ def session (j : Json) : R Json := do
         ("len", nOut r.ev.len),
         ("epochs", .arr (r.ev.epochs.map iOut).toArray)])).toArray)]
 
+/-- op `c18.fit_trace`: the C12 event trace of an early-stopped run.  Evaluator and stopper as in `c18.fit` (evaluator-only
+pre-run included); `cands` = the epochs `start … epochs` with their world tokens (the world of an epoch not listed is 0).
+The stop requests of `QV.Train.fit` are DERIVED from them (`QV.Cb.stopperReq`: the stopper, identity `st_id` in the callback
+list `cbs`, asks at `on_epoch_end(e)` according to the evaluations held then), and `Train.fit` is run with `num_batches`
+batches per epoch.  Also returns what `fitRun` gives for the same epochs (`fired`, `stop`, `last_epoch`).
+in : the fields of `c18.fit` + start epochs num_batches cbs:[id] st_id timer
+out: {"ok": {events, calls, stop, ver, fired, loop_stop, last_epoch}} | {"error": kind} -/
+def fitTrace (j : Json) : R Json := do
+  let pe ← jInt (← fld j "pe")
+  let evalFirst ← jBool (← fld j "eval_first")
+  let name ← jStr (← fld j "name")
+  let vals ← (← jArr (← fld j "vals")).mapM parseNum
+  let vars ← (match fldOpt j "vars" with | some x => do (← jArr x).mapM parseNum | none => pure #[])
+  let parseCands (x : Json) : R (List (Int × Nat)) := do
+    (← jArr x).toList.mapM (fun p => do
+      let pa ← jArr p
+      if pa.size != 2 then .error "cand = [epoch, w]"
+      return (← jInt pa[0]!, ← jNat pa[1]!))
+  let cands ← parseCands (← fld j "cands")
+  let pre ← (match fldOpt j "pre" with | some x => parseCands x | none => pure [])
+  let start ← jInt (← fld j "start")
+  let epochs ← jInt (← fld j "epochs")
+  let nb ← jNat (← fld j "num_batches")
+  let cbs ← jNatArr (← fld j "cbs")
+  let stId ← jNat (← fld j "st_id")
+  let timer ← jBool (← fld j "timer")
+  let zero : Num Float := ⟨.py, 0.0⟩
+  match (← build j) with
+  | .error e => return errJ e
+  | .ok es =>
+    let ev0 : AnyEval Nat Float :=
+      match es.evalKind with
+      | .observable =>
+        let c : ObservableEvaluator Nat (Num Float) := ⟨pe, [name], fun w =>
+          [(name, [("mean", vals[w]?.getD zero), ("variance", vars[w]?.getD zero),
+                   ("std_error", zero), ("num_samples", zero)])], false⟩
+        .observable c c.init
+      | _ =>
+        let c : MetricEvaluator Nat (Num Float) := ⟨pe, [(name, fun w => vals[w]?.getD zero)], false⟩
+        .metric c c.init
+    let evPre : Except PyErr (AnyEval Nat Float) :=
+      pre.foldl (fun acc ew => match acc with
+        | .error e => .error e
+        | .ok ev => ev.onEpochEnd ew.1 ew.2) (.ok ev0)
+    match evPre with
+    | .error e => return errJ e
+    | .ok ev1 =>
+      let wof : Int → Nat := fun e => (cands.lookup e).getD 0
+      let c : QV.Train.Cfg := { start := start, epochs := epochs, numBatches := nb, cbs := cbs.toList, timer := timer,
+                                hasSched := false }
+      let Rq := stopperReq stId es evalFirst ev1 wof start
+      let r := QV.Train.fit c Rq false
+      match fitRun es evalFirst ⟨ev1, ⟨false, none⟩, []⟩ ((QV.Train.epochRange start epochs).map (fun e => (e, wof e))) with
+      | .error e => return errJ e
+      | .ok lr =>
+        return Json.mkObj [("ok", Json.mkObj [
+          ("events", .arr ((QV.Train.events r.1).toArray.map Drv.C12.evOut)),
+          ("calls", .arr ((QV.Train.calls r.1).toArray.map (fun p => .arr #[nOut p.1, Drv.C12.evOut p.2]))),
+          ("stop", .bool r.2.stop), ("ver", nOut r.2.ver),
+          ("fired", .arr (lr.fired.map iOut).toArray),
+          ("loop_stop", .bool lr.st.stop),
+          ("last_epoch", match lr.st.lastEpoch with | some e => iOut e | none => .null)])]
+
 /-- one stop source of `c18.fit_multi`: {"kind": "stopper", …the fields of `build`…} | {"kind": "request", "epochs": [e]} -/
 def parseSrc (j : Json) : R (Except PyErr (StopSrc Float)) := do
   match (← jStr (← fld j "kind")) with
@@ -242,6 +306,7 @@ def handle (op : String) (j : Json) : Option (R Json) :=
   | "c18.new" => some (new j)
   | "c18.fit" => some (fit j)
   | "c18.fit_multi" => some (fitMulti j)
+  | "c18.fit_trace" => some (fitTrace j)
   | "c18.session" => some (session j)
   | "c18.norm" => some (norm j)
   | _ => none
